@@ -9,6 +9,7 @@ arbitrary element operator tables.
 -/
 import TetlProofs.C07.Lemmas
 import TetlProofs.C07.Select
+import TetlProofs.C07.SelectK
 namespace Tetl.C07.Props
 open Tetl Tetl.C07
 
@@ -100,6 +101,31 @@ example : TrivOK ⟨2, false, false, false, false⟩ markElem
     ∧ Spec.fbAssign (fun _ => true) false (⟨1, (5, 0)⟩ : V (Nat × Nat)) ⟨1, (7, 0)⟩ = false
     ∧ Spec.fbAssign (fun _ => true) true (⟨0, (5, 0)⟩ : V (Nat × Nat)) ⟨1, (7, 0)⟩ = false :=
   ⟨trivOK_mark 2, by decide, by decide⟩
+
+/-- a variant with a REPEATED alternative type (`variant<Q, int, Q>`: alternatives 0 and 2 have the same type):
+    [variant.assign] decides by the alternative INDEX, not by the type.  Whatever labelling `ty` of the alternatives
+    by types there is, assignment between two different indices - of the same type or not - never assigns through:
+    the target ends with the source's index, holding an element copy / move CONSTRUCTED from the source's value
+    (`Spec.cons`), and the source keeps its index.  (Corollary of `assign_refines_partial`; the excluded class is
+    the same.) -/
+theorem assign_repeated_type {τ : Type} (ty : Nat → τ) (c : Cfg) (el : Elem α) (ht : TrivOK c el) (fb : α → Bool)
+    (mv : Bool) (dst src : V α) (hd : dst.idx < c.n) (hs : src.idx < c.n)
+    (_hty : ty dst.idx = ty src.idx) (hne : dst.idx ≠ src.idx)
+    (hfb : Spec.fbAssign fb mv dst src = false) :
+    assign c el mv dst src
+      = .ok (⟨src.idx, (Spec.cons el fb mv src.val).1⟩, ⟨src.idx, (Spec.cons el fb mv src.val).2⟩) := by
+  rw [assign_refines_partial c el ht fb mv dst src hd hs hfb]
+  simp [Spec.assignV, hne]
+
+/-- non-vacuity and the concrete witness of the seeded change C07-r2-assign-same-type-alt: `variant<Q, int, Q>`
+    (alternatives 0 and 2 of one type, values carry the mark of the special member that produced them), target
+    holds alternative 0, source alternative 2: copy assignment gives index 2 with a copy CONSTRUCTED element
+    (mark 1, not the copy-assignment mark 3), move assignment index 2 with mark 2 and a moved-from source -/
+example : assign ⟨3, false, false, false, false⟩ markElem false ⟨0, (1, 0)⟩ ⟨2, (7, 0)⟩ = .ok (⟨2, (7, 1)⟩, ⟨2, (7, 0)⟩)
+    ∧ assign ⟨3, false, false, false, false⟩ markElem true ⟨2, (3, 0)⟩ ⟨0, (9, 0)⟩ = .ok (⟨0, (9, 2)⟩, ⟨0, (0, 0)⟩)
+    ∧ (fun i => i % 2) (0 : Nat) = (fun i => i % 2) 2
+    ∧ Spec.fbAssign Spec.noFb false (⟨0, (1, 0)⟩ : V (Nat × Nat)) ⟨2, (7, 0)⟩ = false :=
+  ⟨rfl, rfl, rfl, by decide⟩
 
 /-- known finding F-C07-copy-assign-no-copy-then-move: for an alternative with a potentially-throwing copy
     constructor and a non-throwing move constructor, [variant.assign]/2.4 copy-assigns a different alternative
@@ -608,6 +634,49 @@ example : (⟨1, 7⟩ : V Nat).idx = 1 := rfl
     when there is none or the best is tied — for any number of alternatives and any candidate table -/
 theorem select_eq (cands : List (Option Cand)) : select cands = Spec.select cands := Tetl.C07.select_eq cands
 
+/-- the no-narrowing test of `variant_alternative_candidate` (`Ti x[] = {forward<T>(t)}` well-formed), as the model
+    has it for every pair of kinds - arithmetic, pointer, string literal, `nullptr_t`, enumeration and class
+    arguments and alternatives - is [dcl.init.list]/7 clause by clause; in particular a conversion from a pointer
+    to `bool` is narrowing (7.5), so the test is not restricted to arithmetic types -/
+theorem narrow_eq (a t : K) : narrow a t = Spec.narrowing a t := Tetl.C07.narrow_eq a t
+
+/-- the alternative the converting constructor / assignment selects for an argument of kind `a` over ANY list of
+    alternative kinds (repeated ones included) is exactly the one [variant.ctor]/14 prescribes: the alternative
+    whose `FUN(Ti)` exists (`Ti x[] = {std::forward<T>(t)}` well-formed: conversion exists, not narrowing) and whose
+    conversion sequence is strictly better than that of every other such alternative -/
+theorem selectK_eq (a : K) (alts : List K) (i : Nat) : selectK a alts = some i ↔ Spec.selects a alts i := by
+  rw [selectK_eq_spec]; exact specSelectK_iff a alts i
+
+/-- the spec column of the selector probes (`Spec.selectK`, the computed form the driver prints and R2 compares with
+    std::variant) is that same declarative selection -/
+theorem specSelectK_eq (a : K) (alts : List K) (i : Nat) : Spec.selectK a alts = some i ↔ Spec.selects a alts i :=
+  specSelectK_iff a alts i
+
+/-- ... and the converting forms drop out of overload resolution (no alternative selected) exactly when no
+    alternative is prescribed: none viable, or the best ones tied (e.g. a repeated alternative type) -/
+theorem selectK_none (a : K) (alts : List K) : selectK a alts = none ↔ ∀ i, ¬ Spec.selects a alts i := by
+  constructor
+  · intro h i hi
+    rw [← selectK_eq, h] at hi
+    cases hi
+  · intro h
+    cases hs : selectK a alts with
+    | none => rfl
+    | some i => exact absurd ((selectK_eq a alts i).mp hs) (h i)
+
+/-- the classic cases (regression for the seeded change C07-r2-selector-nonarithmetic-narrowing): a string literal
+    or `char const*` given to `variant<bool, Text>` selects `Text` (pointer -> bool is narrowing, so `bool` is no
+    candidate although a standard conversion would beat the user-defined one); `variant<int, bool, void const*>`
+    from an `int*` selects the pointer; `variant<bool, int>` has no alternative for a pointer; `variant<bool, Num>`
+    from an `int` selects `Num`; a repeated alternative type is ambiguous.  `decide` over concrete inputs. -/
+theorem select_pointer_not_bool :
+    selectK .lit [.bool, .fromPtr 0] = some 1 ∧ selectK .cptr [.fromPtr 0, .bool] = some 0
+      ∧ selectK .iptr [.int, .bool, .vptr] = some 2 ∧ selectK .cptr [.bool, .int] = none
+      ∧ selectK .int [.bool, .fromInt 0] = some 1 ∧ selectK .bool [.bool, .bool] = none
+      ∧ candK .cptr .bool = some ⟨2, true⟩ ∧ Spec.selects .lit [.bool, .fromPtr 0] 1 :=
+  ⟨by decide, by decide, by decide, by decide, by decide, by decide, by decide,
+   (selectK_eq .lit [.bool, .fromPtr 0] 1).mp (by decide)⟩
+
 /-! ## relational operators -/
 
 /-- variant: all six operators (index first, then the visited element operator; `!=` as `!(==)`) equal
@@ -665,5 +734,13 @@ theorem optRelValL_eq (o : RelOps α β) (o' : RelOps β α) (hsym : ∀ x y, o'
 
 example : (∀ x y : Nat, natOps .eq y x = natOps .eq x y) ∧ (∀ x y : Nat, natOps .ne y x = !natOps .eq y x) :=
   ⟨natOps_sym, fun x y => natOps_ne y x⟩
+
+/-- optional<T&> from optional<U> (converting constructor and converting assignment): never reads a disengaged source
+    (no `.error`), empty source -> empty, engaged source -> bound to the object the source holds -/
+theorem orefConv_eq (src : Option Nat) : orefConv src = .ok (Spec.orefConv src) := by
+  cases src <;> rfl
+
+-- test (samples): both source states
+example : orefConv (some 2) = .ok (some 2) ∧ orefConv none = .ok none := ⟨rfl, rfl⟩
 
 end Tetl.C07.Props
